@@ -115,7 +115,9 @@ def rule_subqnames(P) -> RuleResult:
     if init is None or not isinstance(wc, FuncInfo):
         raise AnalysisError('anchor vanished: SubqueryTable.__init__ / wildcard_columns')
     SELF, SUB = _S('SELF'), _S('SUBQ')
-    for label, vis_names in (('distinct names', ['c', 'a', 'b']), ('a repeated name', ['c', 'a', 'c', 'b'])):
+    # (un-aliased expressions are named by their source text: `sum(x)` is a column name like any other)
+    for label, vis_names in (('distinct names', ['c', 'a', 'b']), ('a repeated name', ['c', 'a', 'c', 'b']),
+                             ('expression texts as names', ['sum(x)', 'a', 'count(*)', 'Year(date)'])):
         tg = [_S(f'T{i}') for i in range(len(vis_names))]
         names = dict(zip(tg, vis_names))
         HID = _S('H')
@@ -155,7 +157,7 @@ def rule_subqnames(P) -> RuleResult:
                 if items == vis_names:
                     res.ok({'subquery_targets': vis_names, 'star_expands_to': items})
                 else:
-                    res.fail(init.fq, 'subqnames:merged' if len(items) < len(vis_names) else 'subqnames:order',
+                    res.fail(init.fq, ('subqnames:merged' if label == 'a repeated name' else 'subqnames:lost') if len(items) < len(vis_names) else 'subqnames:order',
                              f'`SELECT * FROM (q)` must return q\'s rows and description unchanged; with {label} among the visible targets '
                              f'of q ({vis_names}) the subquery table presents {items}: columns are kept in a mapping keyed by name, so '
                              f'targets of the same name collapse into one column', loc(init))
